@@ -1,6 +1,7 @@
 package c10
 
 import (
+	"strings"
 	"verif/internal/core"
 	"verif/internal/gen/schemagen"
 	"verif/internal/model"
@@ -115,6 +116,18 @@ func extend(r *core.RNG, m *model.Schema) []string {
 		x1 := m.Types[len(m.Types)-1]
 		x1.Interfaces = append(x1.Interfaces, "XI")
 		x1.Fields = append(x1.Fields, &model.FieldDef{Name: "xi", Type: model.NonNull(model.Named("String")), Args: xiArgs})
+	}
+	if len(ifaces) > 0 {
+		// (added by the lead after a seeded change made AppendType rebuild the
+		// implementation tables only for appended OBJECTS) XU: a standalone union
+		// whose members X2, X3 implement the first interface and are reachable
+		// ONLY through it: supplying / appending XU alone brings them in
+		for _, n := range []string{"X2", "X3"} {
+			mkImpl(n, ifaces[0], &model.FieldDef{Name: strings.ToLower(n) + "_own", Type: model.Named("Int")})
+			names = names[:len(names)-1] // not supplied by themselves
+		}
+		m.Types = append(m.Types, &model.TypeDef{Kind: model.Union, Name: "XU", Desc: "standalone union bringing implementers", Members: []string{"X2", "X3"}, ThunkMembers: r.Bool()})
+		names = append(names, "XU")
 	}
 	m.Extra = append(m.Extra, names...)
 	// a subscription root (schemagen never makes one): only the roots clause and the type set look at it
